@@ -219,3 +219,44 @@ Proof.
   - rewrite map_map. apply map_ext_in. intros y Hy. specialize (H2 y Hy). destruct y as [y|]; [|reflexivity].
     cbn [novalue option_map]. f_equal. apply value_okb_nvalue with (version := version). exact H2.
 Qed.
+
+(* ---------- flag words built by  if cond { flags = flags.Add(flag) }  ---------- *)
+Lemma contains_testbit f c k : c = 2 ^ k -> 0 <= k -> QueryFlag_Contains f c = Z.testbit f k.
+Proof.
+  intros -> Hk. unfold QueryFlag_Contains. destruct (Z.testbit f k) eqn:E.
+  - apply negb_true_iff, Z.eqb_neq. intro H0.
+    assert (H : Z.testbit (Z.land f (2 ^ k)) k = true) by (rewrite Z.land_spec, E, Z.pow2_bits_true by exact Hk; reflexivity).
+    rewrite H0, Z.bits_0 in H. discriminate.
+  - apply negb_false_iff, Z.eqb_eq. apply Z.bits_inj'. intros n Hn. rewrite Z.land_spec, Z.bits_0.
+    destruct (Z.eq_dec k n) as [<-|Hne]; [rewrite E; reflexivity|]. rewrite Z.pow2_bits_false by exact Hne. apply andb_false_r.
+Qed.
+Lemma tb_add f m k : Z.testbit (QueryFlag_Add f m) k = Z.testbit f k || Z.testbit m k.
+Proof. unfold QueryFlag_Add. apply Z.lor_spec. Qed.
+Lemma tb_flag_if c f m k : Z.testbit (flag_if c f m) k = Z.testbit f k || (c && Z.testbit m k).
+Proof. destruct c; unfold flag_if; [rewrite tb_add; reflexivity|rewrite orb_false_r; reflexivity]. Qed.
+Lemma add_range n f m : 0 <= n -> 0 <= f < 2 ^ n -> 0 <= m < 2 ^ n -> 0 <= QueryFlag_Add f m < 2 ^ n.
+Proof. intros. unfold QueryFlag_Add. apply lor_range; assumption. Qed.
+Lemma flag_if_range n c f m : 0 <= n -> 0 <= f < 2 ^ n -> 0 <= m < 2 ^ n -> 0 <= flag_if c f m < 2 ^ n.
+Proof. intros. destruct c; unfold flag_if; [apply add_range; assumption|assumption]. Qed.
+
+Ltac closed_testbits :=
+  repeat match goal with
+  | |- context [Z.testbit ?m ?k] =>
+      let b := eval vm_compute in (Z.testbit m k) in
+      match b with
+      | true => change (Z.testbit m k) with true
+      | false => change (Z.testbit m k) with false
+      end
+  end.
+Ltac bool_simpl := repeat (progress (cbn [orb andb negb]; rewrite ?andb_false_r, ?andb_true_r, ?orb_false_r, ?orb_true_r)).
+(* goal: QueryFlag_Contains <flags chain> <constant flag> = <condition> *)
+Ltac contains_tb :=
+  match goal with
+  | |- QueryFlag_Contains _ ?c = _ =>
+      let k := eval vm_compute in (Z.log2 c) in
+      rewrite (contains_testbit _ c k eq_refl) by lia
+  end;
+  repeat (first [rewrite tb_flag_if | rewrite tb_add]); closed_testbits; bool_simpl.
+(* goal: 0 <= <flags chain> < 2 ^ n *)
+Ltac flags_range :=
+  repeat first [apply flag_if_range | apply add_range]; try lia; try (vm_compute; split; [discriminate|reflexivity]).
